@@ -15,6 +15,7 @@
 -/
 import StVerif.Lemmas.FmtRun
 import StVerif.Lemmas.UtfString
+import StVerif.Lemmas.KernelPadSize
 
 namespace StVerif.Props.C11
 open StVerif StVerif.Fmt StVerif.Lemmas.Fmt
@@ -225,5 +226,16 @@ example : render [123, 125] [.wide .utf32 .checkValidity [0x110000]] = .throw .u
 example : (Arg.wide .utf32 .checkValidity [0x1F600, 0x110000]).InRange := by
   refine ⟨Or.inr ⟨rfl, ?_⟩, by decide⟩
   intro x hx; simp at hx; omega
+
+/-! ### tie to the source (tools/gen_kernels.py) -/
+
+/-- `_ST_PRIVATE::pad_size` as translated from include/st_format_priv.h on every run (the `format_spec` fields it reads as
+    parameters, the `switch` on the digit class, signed arithmetic checked for overflow) is the model's `padSize` for every
+    width an `int` can hold and every text below 2^62 bytes: in particular `--pad_size` / `pad_size -= 2` never overflow -/
+theorem translated_pad_size_is_model (f : FormatSpec) (size : Nat) (nt : StVerif.Fmt.NumType)
+    (hmin : -(2:Int)^31 ≤ f.minimumLength ∧ f.minimumLength < (2:Int)^31) (hsize : size < 2 ^ 62) :
+    StVerif.Generated.Kernels.pad_size f.minimumLength (if f.alwaysSigned then 1 else 0) (if f.classPrefix then 1 else 0)
+      (KernelBridge.digitCode f.digitClass) size (KernelBridge.numCode nt) = .ok (StVerif.Fmt.padSize f size nt) :=
+  KernelBridge.pad_size_eq f size nt hmin hsize
 
 end StVerif.Props.C11
